@@ -127,7 +127,14 @@ class C20Monitor(Monitor):
                 got = d["moves"].get(p[:-9], {}).get("kwargs", {}).get("criteria")
                 want = {"name": "BareCriteria", "kwargs": {"marker": 54321}}
             else:
-                got = d["moves"].get(p, {}).get("kwargs", {}).get("move")
+                parts = p.split(".")
+                got = d["moves"].get(parts[0], {}).get("kwargs", {}).get("move")
+                for idx in parts[1:]:  # bare move nested in a hand-built CompositeMove
+                    try:
+                        got = got["kwargs"]["moves"][int(idx)]
+                    except (KeyError, IndexError, TypeError, ValueError):
+                        got = None
+                        break
                 want = {"name": "BareMove", "kwargs": {"marker": 12345}}
             if got != want:
                 self.violate(w, "not_serialized_with_simulation", f"object={'criteria' if p.endswith('#criteria') else 'move'}|driver={w.sc['driver']}",
@@ -179,8 +186,31 @@ class C20(HistoryCampaign):
                     e["criteria"] = "bare"
                     e["verdicts"] = [rnd.random() < 0.5 for _ in range(4)]
                     break
-        free = sc["params"]["max_cycles"] - sum(e.get("minimum_count", 0) for e in sc["moves"])
+        if rnd.random() < 0.3 and drv != "MonteCarlo":
+            # a bare move inside a hand-built CompositeMove next to a shipped displacement move
+            n = len(sc["atoms"]["numbers"])
+            if n:
+                sc["moves"].append({"name": "wrapped", "criteria": {"Canonical": "Canonical", "HamiltonianCanonical": "Canonical",
+                                                                     "Isobaric": "Isobaric", "Isotension": "Isotension",
+                                                                     "GrandCanonical": "GrandCanonical"}[drv],
+                                    "move": {"type": "wrap", "items": [
+                                        {"type": "bare", "kind": "noop", "results": [rnd.choice([True, False, 1, 0])]},
+                                        {"type": "disp", "labels": self._labels_for(sc), "op": {"type": "Ball", "step": 0.1}}]}})
         return sc
+
+    @staticmethod
+    def _labels_for(sc):
+        n = len(sc["atoms"]["numbers"])
+        if sc["driver"] == "GrandCanonical":
+            for e in sc["moves"]:
+                m = e["move"]
+                stack = [m]
+                while stack:
+                    x = stack.pop()
+                    if x["type"] == "exch":
+                        return list(x["labels"])
+                    stack += x.get("items", []) + ([x["item"]] if "item" in x else [])
+        return list(range(n))
 
     def nontrivial(self, packed):
         return packed["stats"].get("probe.bare_trials", 0) > 0
